@@ -194,8 +194,17 @@ def r07d(model: Model, rr: RuleResult):
     if len(mig) != 1:
         raise AnalysisError("_add_glyph: _migrate_to_defs call not found")
     ok = migrate_condition_ok(cfg, cfg.node_for(mig[0]), fi)
+    from ..dataflow import resolved as _res7
+    tests = [_res7(cfg, t, getattr(cfg.nodes[t].ast, "test", None)) for t, _ in cfg.controlling_tests(cfg.node_for(mig[0])) if getattr(cfg.nodes[t].ast, "test", None) is not None]
+    prefix = [n for t in tests for n in ast.walk(t)
+              if (isinstance(n, ast.Call) and callee_tail(n) in ("startswith", "endswith", "find") and "color_glyph.ufo_glyph_name" in norm(n))
+              or (isinstance(n, ast.Compare) and any(isinstance(o, (ast.In, ast.NotIn)) for o in n.ops) and "color_glyph.ufo_glyph_name" in norm(n.left) and "glyph_name" in norm(n.comparators[0]))]
     if ok:
         rr.ok("_migrate_to_defs is taken whenever the reused element belongs to another colour glyph")
+    elif prefix:
+        rr.bad(fi, mig[0], f"whether the reused path belongs to this colour glyph is decided by a substring test (`{short(prefix[0], 80)}`), not by equality with the owner's name: glyph names are "
+               f"prefixes of one another (u1F600 / u1F600_u1F3FB, e000 / e0001), so a path inside ANOTHER glyph's element passes as the glyph's own and is referenced in place",
+               construct="_add_glyph: ownership of the reused path by name prefix")
     else:
         rr.bad_shape(fi, mig[0], "reuse across glyphs is not forced through <defs>: a glyph element would reference content inside another glyph element",
                construct="_add_glyph: _migrate_to_defs condition")
@@ -255,7 +264,14 @@ def r07e(model: Model, rr: RuleResult):
         strike_calls = [c for c in calls_in(fi, nested=True) if callee_tail(c) == "_make_cbdt_strike"]
         loops = [st for st in ast.walk(fi.node) if isinstance(st, (ast.While, ast.For))]
         in_loop = [c for c in strike_calls if any(any(x is c for x in ast.walk(lp)) for lp in loops)]
-        if strike_calls and not in_loop:
+        # takewhile over an iterator that an enclosing loop also advances: the element that ends the run has been consumed and is never seen again
+        tw = [c for c in calls_in(fi, nested=True) if callee_tail(c) == "takewhile" and len(c.args) == 2 and isinstance(c.args[1], ast.Name)]
+        shared = [c for c in tw if any(isinstance(lp, ast.For) and isinstance(lp.iter, ast.Name) and lp.iter.id == c.args[1].id and any(x is c for x in ast.walk(lp)) for lp in loops)
+                  and any(isinstance(d.value, ast.Call) and norm(d.value.func) == "iter" for d in cfg.reaching(cfg.node_for(c), c.args[1].id))]
+        if shared:
+            rr.bad(fi, shared[0], f"runs are gathered with takewhile(...) from the iterator `{shared[0].args[1].id}` that the enclosing loop also advances: takewhile consumes the first glyph that "
+                   f"fails the +1 test, i.e. the glyph that should START the next run, so after every gap one glyph gets no bitmap", construct="make_cbdt_table: takewhile drops the glyph after each gap")
+        elif strike_calls and not in_loop:
             rr.bad(fi, strike_calls[0], "make_cbdt_table builds ONE strike for all colour glyphs: when their glyph ids have gaps (a coloured .notdef, blanks of a sequence between "
                    "colour glyphs) the strike's index range covers glyphs that have no bitmap", construct="make_cbdt_table: single strike, no run splitting")
         else:
@@ -403,13 +419,23 @@ def r14a(model: Model, rr: RuleResult):
 def r14b(model: Model, rr: RuleResult):
     s = model.func("bitmap_tables", "make_sbix_table")
     lp = [st for st in walk_body(s) if isinstance(st, ast.For) and norm(st.iter) == "color_glyphs"]
+    b = norm(lp[0].target) if lp else None
+    if not lp:
+        # the glyphs walked in step with something else: zip(..., color_glyphs, ...) / enumerate(color_glyphs)
+        for st in walk_body(s):
+            if isinstance(st, ast.For) and isinstance(st.iter, ast.Call) and norm(st.iter.func) in ("zip", "enumerate") and isinstance(st.target, ast.Tuple):
+                pos = [i for i, a in enumerate(st.iter.args) if norm(a) == "color_glyphs"]
+                if norm(st.iter.func) == "enumerate":
+                    pos = [1] if pos == [0] else []
+                if len(pos) == 1 and len(st.target.elts) == (2 if norm(st.iter.func) == "enumerate" else len(st.iter.args)) and isinstance(st.target.elts[pos[0]], ast.Name):
+                    lp, b = [st], st.target.elts[pos[0]].id
+                    break
     if not lp:
         raise AnalysisError("make_sbix_table: loop over color_glyphs not found")
     cfg = cfg_of(s)
     sg = [c for c in calls_in(lp[0]) if norm(c.func) == "SbixGlyph"]
     if len(sg) != 1:
         raise AnalysisError("make_sbix_table: SbixGlyph(...) not found")
-    b = norm(lp[0].target)
     at = cfg.node_for(sg[0])
     checks = {"glyphName": f"{b}.glyph_id", "imageData": f"{b}.bitmap", "originOffsetX": f"{b}.bitmap"}
     for kw, must in checks.items():
@@ -424,8 +450,15 @@ def r14b(model: Model, rr: RuleResult):
         rr.ok("sbix: the stored bytes are the glyph's PNG itself (no transformation)")
     else:
         rr.bad_shape(s, sg[0], "sbix image bytes are not the glyph's PNG unchanged", construct="make_sbix_table: image_data")
-    st = [x for x in ast.walk(lp[0]) if isinstance(x, ast.Assign) and norm(x.targets[0]) == "strike.glyphs[glyph_name]"]
-    if st and norm(st[0].value) == "glyph":
+    st = [x for x in ast.walk(lp[0]) if isinstance(x, ast.Assign) and isinstance(x.targets[0], ast.Subscript) and norm(x.targets[0].value) == "strike.glyphs"]
+    stored = None
+    if len(st) == 1:
+        stored = st[0].value
+        if isinstance(stored, ast.Name):
+            ds = cfg.reaching(cfg.node_for(st[0]), stored.id)
+            stored = ds[0].value if len(ds) == 1 else None
+    gn = kwarg(sg[0], "glyphName")
+    if stored is sg[0] and gn is not None and norm(gn) == norm(st[0].targets[0].slice):
         rr.ok("sbix: record stored under its own glyph name")
     else:
         rr.bad_shape(s, s.node, "sbix record is not stored under its glyph's name", construct="strike.glyphs[...]")
